@@ -15,14 +15,19 @@
 (* Switches (1 = the repaired code, which this spec mirrors; 0 = as found): *)
 (*   FIX_SIZE   buffers sized for the full-resolution render               *)
 (*              (0: aligned bytes of the BINNED shape -> D12)              *)
-(*   FIX_LOCK   the streamer keeps im.lock from the capture to the end of  *)
-(*              the binning passes, so simcam_set cannot replace or shrink *)
-(*              the buffers under a render in flight                       *)
-(*              (0: lock dropped after the capture)                        *)
+(*   FIX_LOCK   rendering (capture of the full-resolution shape, fill, bin2  *)
+(*              passes) is bracketed by streamer.render_lock, which         *)
+(*              simcam_set holds while it replaces properties and buffers:  *)
+(*              set waits for the render in flight and the next render sees *)
+(*              one consistent configuration                                *)
+(*              (0: the shape is captured under im.lock, which is dropped   *)
+(*              before rendering; set can shrink / move the buffers under   *)
+(*              the renderer)                                               *)
 (*   FIX_ALIGN  bin2.avx2.c uses unaligned vector loads/stores             *)
 (*              (0: dereferences __m256i*, which needs 32-byte alignment   *)
 (*              that realloc does not promise)                             *)
-(* AVX = 1 selects the index formulas of bin2.avx2.c, 0 of bin2.plain.c.   *)
+(* AVXS: the bin2 variants checked (1 = bin2.avx2.c, 0 = bin2.plain.c);    *)
+(* the variant only enters the invariants, not the transition relation.    *)
 (* ALIGN16 = TRUE: the allocator returns blocks that are only 16-byte      *)
 (* aligned (all that malloc/realloc guarantee on x86-64).                  *)
 (***************************************************************************)
@@ -33,7 +38,8 @@ CONSTANTS KINDS,      \* subset of {0,1,2}
           XS, YS,     \* requested shape.x / shape.y values of the first configuration
           XS2, YS2,   \* ... of a re-configuration (smaller sets: set is memoryless except for buffers / run state)
           OES,        \* subset of 0..3: codes of <<offset.x, offset.y, exposure_us>> triples, see OE
-          AVX, FIX_SIZE, FIX_LOCK, FIX_ALIGN, ALIGN16,
+          AVXS,       \* bin2 variants whose index formulas are checked: subset of {0 (plain), 1 (AVX2)}
+          FIX_SIZE, FIX_LOCK, FIX_ALIGN, ALIGN16,
           SampleMod   \* export 1 transition in SampleMod
 
 VARIABLES kind,
@@ -78,7 +84,7 @@ Init ==
   /\ req = Defaults /\ res = [st |-> 0, cp |-> 0]
   /\ hist = <<>> /\ lastAct = "Init"
 
-LockFree == spc \in {"off", "top"}         \* the streamer neither holds im.lock (repaired) nor has a render in flight
+LockFree == spc \in {"off", "top"}         \* no render in flight (repaired: the render lock is free)
 SpcCode == CASE spc = "off" -> 0 [] spc = "top" -> 1 [] spc = "captured" -> 2 [] OTHER -> 3
 
 Record(op, a) == hist' = Append(hist, [op |-> op, a |-> a, at |-> SpcCode, x |-> Observables'])
@@ -92,7 +98,7 @@ Set(r) ==
   /\ IF IsPow2(nb)
      THEN \* accepted: properties replaced, shape clamped against MAX/binning, both buffers reallocated
        LET sx == ClampDim(r.sx, nb)  sy == ClampDim(r.sy, nb)  n == BufBytes(nb, sx, sy, r.t) IN
-       /\ (FIX_LOCK = 1 => LockFree)                 \* repaired: set waits for the lock the renderer holds
+       /\ (FIX_LOCK = 1 => LockFree)                 \* repaired: set waits for the render lock
        /\ props' = [b |-> nb, t |-> r.t, ox |-> r.ox, oy |-> r.oy, sx |-> sx, sy |-> sy, ex |-> r.ex]
        /\ ish' = [w |-> sx, h |-> sy, t |-> r.t]
        /\ fsize' = n /\ rsize' = n
@@ -156,7 +162,7 @@ GetFrame(mode) ==
   /\ Record("F", <<mode, 0, 0, 0, 0, 0, 0>>)
 
 \* ---- streamer thread (buffer view only) -------------------------------------------------------------
-StCapture ==   \* under im.lock: compute_full_resolution_shape_and_offset
+StCapture ==   \* compute_full_resolution_shape_and_offset (repaired: with the render lock taken)
   /\ running /\ spc = "top"
   /\ cap' = [W |-> props.b * props.sx, H |-> props.b * props.sy, t |-> ish.t]
   /\ spc' = "captured" /\ replaced' = FALSE
@@ -210,16 +216,16 @@ CopyExact ==
 \* no internal buffer is accessed out of bounds: (a) an armed / running configuration has buffers that cover
 \* everything one iteration touches, (b) a render in flight stays inside the buffer it writes to
 ConfiguredBuffersSuffice ==
-  hstate \in {2, 3} => ConfigExtent(AVX, kind, props.sx, props.sy, props.t, props.b) <= Min2(fsize, rsize)
+  hstate \in {2, 3} => \A avx \in AVXS : ConfigExtent(avx, kind, props.sx, props.sy, props.t, props.b) <= Min2(fsize, rsize)
 RenderWithinBuffers ==
   /\ ConfiguredBuffersSuffice
   /\ spc \in {"captured", "rendering"} =>
-       /\ RenderExtent(AVX, kind, cap.W, cap.H, cap.t, props.b) <= rsize
+       /\ \A avx \in AVXS : RenderExtent(avx, kind, cap.W, cap.H, cap.t, props.b) <= rsize
        /\ ~replaced
 
 \* the AVX2 bin2 is only ever run on memory it may access with aligned vector instructions
 Bin2AlignmentOK ==
-  ~(AVX = 1 /\ FIX_ALIGN = 0 /\ ALIGN16 /\ spc \in {"captured", "rendering"} /\ props.b > 1)
+  ~(1 \in AVXS /\ FIX_ALIGN = 0 /\ ALIGN16 /\ spc \in {"captured", "rendering"} /\ props.b > 1)
 
 \* ---- export: one line per (sampled) client transition, carrying the witness history with the expected
 \* observables after every call --------------------------------------------------------------------------------
